@@ -346,7 +346,11 @@ func snapCaseTerm(g *Grid, poly [][]Pt, ids []int, cfg snap.Config, r *Result) s
 		for _, id := range sortedIDs(r.ByID) {
 			items = append(items, fmt.Sprintf("(%d%%nat, %s)", g.Level(id), polysTerm(r.ByID[id])))
 		}
-		obs = "(ObsOk " + hc.CoqList(items) + ")"
+		ctor := "ObsOk"
+		if !g.Dyadic { // pixel centres are not exact floats: see Corr/SnapCase.v ObsOkFloat
+			ctor = "ObsOkFloat"
+		}
+		obs = "(" + ctor + " " + hc.CoqList(items) + ")"
 	}
 	return fmt.Sprintf("SnapCase %s %s %s %s %s", g.CoqTerm(), ringsTerm(poly), hc.CoqList(levels), cfgTerm(cfg), obs)
 }
